@@ -163,6 +163,8 @@ fn shrink_display(cx: &mut Ctx, start: Case) {
     push(&|k| k.latch_partial = false);
     push(&|k| k.by_ref = false);
     push(&|k| k.builder_order = 0);
+    push(&|k| k.zst_rst = false);
+    push(&|k| k.bus_from = false);
     push(&|k| k.orient.mirrored = false);
     if c.config.w == c.config.h {
         push(&|k| k.orient.rot = 0);
@@ -205,6 +207,12 @@ fn shrink_display(cx: &mut Ctx, start: Case) {
         }
         if k.builder_order != c.config.builder_order {
             cand.config.builder_order = k.builder_order;
+        }
+        if k.zst_rst != c.config.zst_rst {
+            cand.config.zst_rst = k.zst_rst;
+        }
+        if k.bus_from != c.config.bus_from {
+            cand.config.bus_from = k.bus_from;
         }
         if k.orient != c.config.orient {
             cand.config.orient = k.orient;
